@@ -454,7 +454,7 @@ func init() {
 					if n == 4 && c.Tier != "thorough" && (cs.Variant != 0 || cs.Desc) {
 						continue // quick: 4 files with the plain variant in ascending import order only
 					}
-					if k&0xFF == 0 && c.Expired() {
+					if c.Due(0xFF) {
 						c.Note(fmt.Sprintf("deadline hit at %d modules", n))
 						return
 					}
